@@ -213,12 +213,14 @@ theorem orCursorBox {a : Region} (ha : a.WF) (ob : Option Region) (hb : ∀ b, o
 theorem setEncodings0_wf (scr : Screen) (c : Client) (cr cs : Bool) (h : WFc c) :
     WFc (setEncodings0 scr c cr cs) := by
   unfold setEncodings0
-  cases cs
-  · exact h
-  · exact ⟨(orCursorBox h.1 _ (cursorBox_wf scr _ _)).1, h.2.1, h.2.2⟩
+  by_cases hb : (cs || c.cursorShape) = true
+  · simp only [hb, if_true]
+    exact ⟨(orCursorBox h.1 _ (cursorBox_wf scr _ _)).1, h.2.1, h.2.2⟩
+  · simp only [hb]
+    exact h
 
-/-- SetEncodings is a `Step.draw` that draws nothing (`r = ∅`, framebuffer unchanged) and may add
-the cursor box to modifiedRegion (`extra`) -/
+/-- the flag part of SetEncodings is a `Step.draw` that draws nothing (`r = ∅`, framebuffer
+unchanged) and may add the cursor box to modifiedRegion (`extra`) -/
 theorem setEncodings0_step (Sc : PSet) (scr : Screen) (c : Client) (cr cs : Bool) (h : WFc c)
     (fb pic : Pix → V) :
     Step Sc (absS c fb pic) (absS (setEncodings0 scr c cr cs) fb pic) := by
@@ -226,18 +228,16 @@ theorem setEncodings0_step (Sc : PSet) (scr : Screen) (c : Client) (cr cs : Bool
       { absS c fb pic with
           fb := fb,
           M := fun p => (absS c fb pic).M p ∨ (fun _ => False) p ∨
-            (fun p => cs = true ∧ ∃ b, cursorBox scr c.cursorX c.cursorY = some b ∧ dset b p) p } := by
+            (fun p => (cs || c.cursorShape) = true ∧
+              ∃ b, cursorBox scr c.cursorX c.cursorY = some b ∧ dset b p) p } := by
     apply SState_ext <;> try same_field
     · intro p
       unfold setEncodings0
-      cases cs
-      · simp [absS]
+      by_cases hb : (cs || c.cursorShape) = true
       · have := (orCursorBox h.1 (cursorBox scr c.cursorX c.cursorY) (cursorBox_wf scr _ _)).2 p
-        simp only [absS, if_true, false_or, true_and]
+        simp only [absS, hb, if_true, false_or, true_and]
         exact this
-    · intro p; unfold setEncodings0; cases cs <;> rfl
-    · intro p; unfold setEncodings0; cases cs <;> rfl
-    · unfold setEncodings0; cases cs <;> rfl
+      · simp [absS, hb]
   rw [e]
   exact Step.draw _ _ _ _ (fun _ _ _ => rfl)
 
